@@ -6,8 +6,9 @@ import os
 import re
 
 import vlib
-from vlib import gZ, gQ, gbool, gopt
+from vlib import gbool, gopt
 from props import c14_ext as X
+from props.c14_ext import gZ, gQ      # hexadecimal literals for big integers
 
 F = fractions.Fraction
 PID = 'C14'
@@ -28,7 +29,12 @@ RULE = ('kernel cases: (alpha_num, d_num, den) and (x, abs_err) rationals, rando
         'ties k+1/2 with even and odd floor and both signs for round/floor/ceil/trunc/int; `disp`: operands of 25 Python '
         'types (numpy float16/32/64/longdouble/int8/int64/uint8/bool_, sympy Rational/Half/Integer/Float/Symbol, Fraction '
         'and a subclass, gmpy2 mpq/mpz/mpfr, bool, Decimal, strings, None/complex/list/object, ndarray) x six operators x '
-        'operand order; `hashval`: hash of TimeType/mpq/Fraction/int/float of equal value incl. multiples of 2^61-1. '
+        'operand order, objects giving every consistent combination of answers to the questions of _try_from_any, arrays '
+        '(0-d/1-d/2-d/int/object/empty, both orders); `cons`: all six comparisons in both operand orders + hash + container '
+        'lookup on one pair (non-dyadic rational vs the double it rounds to and its neighbours, decimal value of a float vs the '
+        'float, integers > 2^53, values beyond the double range; int/Fraction/time operands); tolerance mode on the 0.01 and '
+        '0.001 decimal grids restricted to inputs whose answer depends on binary-exact end points, dyadic grids a/2^k +- b/2^k; '
+        '`conv`: constructor / from_float on rational types / module wrappers / str / repr / round(t, ndigits); `hashval`: hash of TimeType/mpq/Fraction/int/float of equal value incl. multiples of 2^61-1. '
         'Non-trivial = kernel case that enters the loop, operator case with a non-integer operand, float that is not an '
         'integer, operand type other than time/int; distinct = distinct canonical JSON of the case.')
 TRUSTED = [
@@ -54,8 +60,31 @@ GEN_FILE = os.path.join(vlib.COQ, 'C14', 'Gen_numeric.v')
 GEN_FILE_RAT = os.path.join(vlib.COQ, 'C14', 'Gen_rational.v')
 
 
+def _parallel_print_assumptions():
+    """`Print Assumptions` costs 0.3-1.2 s per theorem here (23 theorems, Flocq / lia proof terms: ~12 s of the quick tier
+    when done in one coqc).  Same function, same output, on four slices of the theorem list in parallel."""
+    orig = vlib.print_assumptions
+    if getattr(orig, '_c14_parallel', False):
+        return
+
+    def par(module, names, workdir):
+        if module != PROPS_MODULE or len(names) < 8:
+            return orig(module, names, workdir)
+        import concurrent.futures
+        k = 4
+        parts = [names[i::k] for i in range(k)]
+        res = {}
+        with concurrent.futures.ThreadPoolExecutor(max_workers=k) as ex:
+            for r in ex.map(lambda ip: orig(module, ip[1], os.path.join(workdir, 'pa_%d' % ip[0])), enumerate(parts)):
+                res.update(r)
+        return res
+    par._c14_parallel = True
+    vlib.print_assumptions = par
+
+
 def pregen(ctx):
     import sys
+    _parallel_print_assumptions()
     sys.path.insert(0, os.path.join(vlib.VERIF, 'translate'))
     import py2gallina
     import py2gallina_c14
@@ -198,13 +227,16 @@ def gen_cases(rng, tier, ctx):
                 f = rng.uniform(-50, 50)
         cases.append({'kind': 'from_float', 'x': f.hex(), 'mode': mode})
     cases.extend(gen_round3(rng, tier, n))
+    cases.extend(gen_round4(rng, tier, n))
     return cases
 
 
 def _swap_ok(v, op):
     k = v['k']
-    if k in ('array', 'sympy.Float', 'mpfr'):
-        return False                 # elementwise result / inexact sympy.Float or mpfr result: not a TimeType operation
+    if k == 'array':
+        return True                  # element by element in both orders (round 4 repair)
+    if k in ('sympy.Float', 'mpfr'):
+        return False                 # inexact sympy.Float or mpfr result: not a TimeType operation
     if k in ('sympy.Rational', 'sympy.Integer', 'reflects'):
         return op in ('add', 'sub', 'mul')          # sympy's own operators (division by zero is zoo there)
     if k == 'str':
@@ -250,6 +282,10 @@ def gen_round3(rng, tier, n):
         cases.append({'kind': 'disp', 'op': 'add', 't': '1/3', 'v': {'k': 'str', 'v': txt}, 'swap': False})
     for o in X.OPAQUE:
         cases.append({'kind': 'disp', 'op': 'mul', 't': '1/3', 'v': {'k': 'opaque', 'v': o}, 'swap': rng.random() < 0.5})
+    for a in (None, 'int', 'empty', '2d', '0d', 'obj'):        # array operands: element by element, in both operand orders
+        for op in ('add', 'sub', 'mul', 'div'):
+            for swap in (False, True):
+                cases.append({'kind': 'disp', 'op': op, 't': str(rnd_frac(rng)), 'v': {'k': 'array', 'v': a}, 'swap': swap})
     for _ in range(350 * n):
         v = X.rnd_pyval(rng)
         op = rng.choice(X.DISP_OPS)
@@ -261,6 +297,52 @@ def gen_round3(rng, tier, n):
     # (d) numeric hash
     for q in X.hash_values(rng, 100 * n):
         cases.append({'kind': 'hashval', 'q': str(q)})
+    return cases
+
+
+def gen_round4(rng, tier, n):
+    cases = []
+    # (a) comparison consistency: all six operators, both operand orders, hash and container lookup on ONE pair; the
+    #     pairs are non-dyadic rationals against the double they round to (class of seed C14-5: `==` in double precision)
+    for q, o in X.cons_pairs(rng, 60 * n):
+        cases.append({'kind': 'cons', 't': str(q), 'other': o})
+    # (b) tolerance mode on decimal grids, only the inputs whose answer depends on binary-exact end points (class of seed
+    #     C14-6: interval centred on the decimal value), and dyadic grids whose end points are simple fractions
+    grid = list(X.tol_grid(F(1, 100), 200, 100))
+    fine = X.tol_grid(F(1, 1000), 120, 50) if tier == 'quick' else X.tol_grid(F(1, 1000), 1000, 200)
+    grid += fine if tier != 'quick' else rng.sample(fine, min(len(fine), 80))
+    for i, (x, t) in enumerate(grid):
+        if i % 3 == 2:
+            x = -x
+        cases.append({'kind': 'from_float', 'x': float(x).hex(), 'mode': float(t).hex()})
+    dy = X.dyadic_grid(3) + (X.dyadic_grid(5) if tier != 'quick' else rng.sample(X.dyadic_grid(5), 120))
+    for i, (x, t) in enumerate(dy):
+        if i % 4 == 3:
+            x = -x
+        cases.append({'kind': 'from_float', 'x': float(x).hex(), 'mode': float(t).hex()})
+    # (c) every path through _try_from_any: objects built to give each combination of answers
+    for sp in X.custom_specs():
+        cases.append({'kind': 'disp', 'op': rng.choice(X.DISP_OPS), 't': str(rnd_frac(rng)), 'v': {'k': 'custom', 'v': sp},
+                      'swap': rng.random() < 0.5})
+    # (d) the other ways in and out of a TimeType (coverage audit): constructor on TimeType / mpq / Fraction / int / pair,
+    #     from_float on rational types, module-level wrappers, str / repr, round(t, ndigits)
+    vals = [F(0), F(1, 3), F(-7, 2), F(5), F(10 ** 30 + 1, 10 ** 7), F(-1, 10 ** 25)] + [rnd_frac(rng, big=True) for _ in range(12 * n)]
+    for q in vals:
+        for how in ('ctor:time', 'ctor:mpq', 'ctor:Fraction', 'ctor:pair', 'from_float:time', 'from_float:mpq',
+                    'from_float:Fraction', 'time_from_fraction', 'str', 'repr', 'from_float:str'):
+            cases.append({'kind': 'conv', 'how': how, 't': str(q)})
+        if q.denominator == 1:
+            cases.append({'kind': 'conv', 'how': 'ctor:int', 't': str(q)})
+    for x in BOUNDARY_FLOATS[:12]:
+        cases.append({'kind': 'conv', 'how': 'time_from_float', 't': str(F(repr(x))), 'x': float(x).hex()})
+    for q in [F(12345, 1000), F(125, 100), F(135, 100), F(-125, 100), F(5, 2), F(1, 3), F(25, 10), F(15), F(-25)] + \
+            [rnd_frac(rng, big=True) for _ in range(10 * n)]:
+        for nd in (0, 1, 2, -1):
+            cases.append({'kind': 'conv', 'how': 'round:%d' % nd, 't': str(q)})
+    for _ in range(60 * n):                              # random two-decimal / three-decimal inputs (user literals)
+        d = rng.choice([100, 1000, 10])
+        x, t = rng.randint(-3 * d, 3 * d) / d, rng.randint(1, d) / d
+        cases.append({'kind': 'from_float', 'x': float(x).hex(), 'mode': float(t).hex()})
     return cases
 
 
@@ -336,6 +418,46 @@ def run_impl(case):
                     return {'crash': 'inexact result type %s' % type(r).__name__}
                 o['ret'] = vlib.frac_json(r)
         return o
+    if k == 'conv':
+        from qupulse.utils import types as qtypes
+        tf = F(case['t'])
+        how, _, arg = case['how'].partition(':')
+        mk = {'time': lambda: TimeType.from_fraction(tf.numerator, tf.denominator), 'mpq': lambda: gmpy2.mpq(tf.numerator, tf.denominator),
+              'Fraction': lambda: tf, 'int': lambda: int(tf), 'str': lambda: str(tf)}
+
+        def conv():
+            if how == 'ctor':
+                r = TimeType(tf.numerator, tf.denominator) if arg == 'pair' else TimeType(mk[arg]())
+            elif how == 'from_float':
+                r = TimeType.from_float(mk[arg]())
+            elif how == 'time_from_fraction':
+                r = qtypes.time_from_fraction(tf.numerator, tf.denominator)
+            elif how == 'time_from_float':
+                r = qtypes.time_from_float(float.fromhex(case['x']))
+            elif how == 'str':
+                return vlib.frac_json(F(str(mk['time']())))
+            elif how == 'repr':
+                m = re.fullmatch(r'TimeType\((-?\d+), (\d+)\)', repr(mk['time']()))
+                return vlib.frac_json(F(int(m.group(1)), int(m.group(2))))
+            elif how == 'round':
+                return vlib.frac_json(round(mk['time'](), int(arg)))
+            if type(r) is not TimeType:
+                raise TypeError('result type %s' % type(r).__name__)
+            return vlib.frac_json(r)
+        o = _outcome(conv)
+        return o if 'ret' in o else {'crash': str(o)}
+    if k == 'cons':
+        tf = F(case['t'])
+        t = TimeType.from_fraction(tf.numerator, tf.denominator)
+        other = _operand_py(case['other'])
+
+        def six(a, b):
+            r = [a < b, a <= b, a > b, a >= b, a == b, a != b]
+            if not all(type(x) is bool for x in r):
+                raise TypeError('non-bool comparison result %r' % (r,))
+            return r
+        return _outcome(lambda: {'fwd': six(t, other), 'rev': six(other, t), 'ht': hash(t), 'ho': hash(other),
+                                 'in_list': t in [other], 'in_dict': t in {other: 1}})
     if k == 'un':
         tf = F(case['t'])
         t = TimeType.from_fraction(tf.numerator, tf.denominator)
@@ -351,6 +473,8 @@ def run_impl(case):
         except Exception as e:
             return {'crash': 'harness could not build the operand: %s' % e}
         fn = BINOPS[case['op']][1]
+        if case['v']['k'] == 'array':
+            return X.observe_array_binop(fn, t, other, case['swap'])
         return X.observe_binop((lambda: fn(other, t)) if case['swap'] else (lambda: fn(t, other)),
                                reflecting=case['v']['k'] == 'reflects')
     if k == 'hashval':
@@ -429,6 +553,19 @@ def to_coq(case, obs):
             return '(CCrash)'
         return '(CHash %s %s %s %s)' % (gQ(F(case['t'])), _g_operand(case['other']), gbool(obs['ret'][0]),
                                         gbool(obs['ret'][1]))
+    if k == 'conv':
+        q, r = F(case['t']), F(obs['ret'])
+        if case['how'].startswith('round:'):          # round(t, nd) = round_half_even(t * 10^nd) / 10^nd
+            sc = F(10) ** int(case['how'][6:])
+            return '(CUn RoundHalfEven %s %s)' % (gQ(q * sc), gQ(r * sc))
+        return '(CUn Pos %s %s)' % (gQ(q), gQ(r))
+    if k == 'cons':
+        if 'ret' not in obs:
+            return '(CCrash)'
+        r = obs['ret']
+        c6 = lambda b: '(mkCmp6 %s)' % ' '.join(gbool(x) for x in b)
+        return '(CCons %s %s %s %s %s %s %s %s)' % (gQ(F(case['t'])), _g_operand(case['other']), c6(r['fwd']), c6(r['rev']),
+                                                    gZ(r['ht']), gZ(r['ho']), gbool(r['in_list']), gbool(r['in_dict']))
     if k == 'disp':
         return '(CDisp %s %s %s %s %s)' % (BINOPS[case['op']][0], gQ(F(case['t'])), X.g_pyval(case['v']), gbool(case['swap']),
                                            X.g_bres(obs))
@@ -454,7 +591,7 @@ def to_coq(case, obs):
             m = 'FFExact'
         else:
             m = '(FFTol %s)' % gQ(F(float.fromhex(mode)))
-        impl = _g_outcome(obs, lambda r: '(%d # %d)' % (r[0], r[1]))
+        impl = _g_outcome(obs, lambda r: '(%s # %s)' % (X._lit(r[0]), X._lit(r[1])))      # as returned (unreduced)
         return '(CFromFloat %s %s %s %s %s %s %s %s)' % (gQ(F(x)), gQ(F(repr(x))), gbool(neg), gZ(mant), gZ(ex), m,
                                                          impl, gbool(obs.get('back', False)))
     raise ValueError(k)
@@ -466,9 +603,9 @@ def nontrivial(case, obs):
         return case['den'] > 3
     if k == 'approx_rat':
         return F(case['x']).denominator != 1
-    if k in ('bin', 'cmp', 'hash'):
+    if k in ('bin', 'cmp', 'hash', 'cons'):
         return F(case['t']).denominator != 1 or case['other']['ty'] == 'float'
-    if k == 'un':
+    if k in ('un', 'conv'):
         return F(case['t']).denominator != 1
     if k == 'from_float':
         return not float.fromhex(case['x']).is_integer()
@@ -486,6 +623,10 @@ def histogram_keys(case, obs):
     keys = [k]
     if k in ('bin', 'cmp'):
         keys.append('%s:%s:%s' % (k, case['op'], case['other']['ty']))
+    if k == 'conv':
+        keys.append('conv:' + case['how'].split(':')[0])
+    if k == 'cons':
+        keys.append('cons:%s:%s' % (case['other']['ty'], 'equal' if obs.get('ret', {}).get('fwd', [0] * 6)[4] else 'differ'))
     if k == 'from_float':
         keys.append('from_float:mode=%s' % ('None' if case['mode'] is None else '0' if case['mode'] == 0 else 'tol'))
     if k == 'disp':
@@ -557,10 +698,16 @@ MANIFEST = {
                   'dispatch (_converter / _try_from_any) are modelled over Q and tied to the code by an exact correspondence '
                   'check on every operator x 25 operand types x order; Python\'s numeric hash (mod 2^61-1) is modelled and '
                   'proved to depend only on the rational value and to agree with the int / float hash; the binary64 round '
-                  'trip float(from_float(x)) == x is proved with Flocq from two explicit CPython hypotheses.',
+                  'trip float(from_float(x)) == x is proved with Flocq from two explicit CPython hypotheses, and the '
+                  'executable criterion evaluated per case is proved to imply Flocq\'s round-to-nearest-even.',
     'level_note': 'Trusted: Coq kernel, translators, gmpy2.mpq exactness, repr(float) shortest-round-trip contract and '
-                  'correctly rounded int/int (hypotheses of the Flocq theorem), the per-type probe table, harness. The '
-                  'executable rounding-interval criterion used by check_spec is not yet proved against Flocq (stated).',
+                  'correctly rounded int/int (hypotheses of the Flocq theorems), the per-type probe table, harness. Round 4: '
+                  'the executable rounding-interval criterion used by check_spec is proved against Flocq '
+                  '(C14_rounds_to_correct, C14_float_roundtrip_checked); the six comparisons are proved consistent in the '
+                  'model (C14_cmp_consistent) and the same laws are evaluated on the implementation. Not translated from the '
+                  'source: _try_from_any (modelled by hand, every path exercised by built objects) and the operator '
+                  'wrappers; the fast "no denominator <= 400" search of check_spec is compared with the brute-force '
+                  'definition on a sample only.',
     'technique': 'Coq proof (Stern-Brocot invariant, modular arithmetic, Flocq) over AST-translated code + correspondence check',
     'design_ref': 'DESIGN.md §5 C14',
 }
